@@ -9,13 +9,16 @@ package http3
 import (
 	"context"
 	"fmt"
+	"os"
 	"runtime"
 	"runtime/debug"
 	"strings"
+	"sync/atomic"
 	"testing"
 	"testing/synctest"
 	"time"
 
+	"golang.org/x/net/internal/verifrt"
 	"golang.org/x/net/quic"
 )
 
@@ -190,4 +193,65 @@ func vqsVarint(dst []byte, v uint64, size int) []byte {
 		dst[start] |= 0xc0
 	}
 	return dst
+}
+
+// vqsProgress is bumped by a batch before every sub-case; what() describes the sub-case in
+// flight.
+type vqsProgress struct {
+	n    atomic.Int64
+	what atomic.Value // string
+}
+
+func (p *vqsProgress) step(what string) {
+	p.what.Store(what)
+	p.n.Add(1)
+}
+
+// vqsWatch starts a real-time watchdog (outside any bubble) for one batch. It never judges
+// how fast anything is: it fires only when the batch has not reached its next sub-case for
+// limit (two orders of magnitude above a whole batch on a loaded machine) AND a goroutine of a
+// bubble is at that moment running or runnable (not blocked) inside golang.org/x/net code,
+// i.e. the implementation is spinning on the input in flight. That is reported as a violation
+// with the spinning stack, results are written and the process exits (a spinning goroutine
+// cannot be stopped). Anything else that is stuck is left to the driver's watchdog.
+func vqsWatch(r *verifrt.R, c *verifrt.Case, p *vqsProgress, limit time.Duration) (stop func()) {
+	quit := make(chan struct{})
+	go func() {
+		last, since := p.n.Load(), time.Now()
+		tick := time.NewTicker(2 * time.Second)
+		defer tick.Stop()
+		for {
+			select {
+			case <-quit:
+				return
+			case <-tick.C:
+			}
+			if n := p.n.Load(); n != last {
+				last, since = n, time.Now()
+				continue
+			}
+			if time.Since(since) < limit {
+				continue
+			}
+			buf := make([]byte, 4<<20)
+			buf = buf[:runtime.Stack(buf, true)]
+			for _, g := range strings.Split(string(buf), "\n\n") {
+				head, _, _ := strings.Cut(g, "\n")
+				if !strings.Contains(head, "synctest bubble") || !(strings.Contains(head, "[running") || strings.Contains(head, "[runnable")) {
+					continue
+				}
+				if !strings.Contains(g, "golang.org/x/net/internal/http3.") {
+					continue
+				}
+				what, _ := p.what.Load().(string)
+				key := vqsPanicKey("stuck-running", g)
+				c.Violation(strings.Replace(key, "panic:", "", 1), "no progress for %v while a goroutine is spinning in golang.org/x/net code; sub-case in flight: %s\n%s", limit, what, g)
+				r.ExitIfAbnormal()
+				r.Finish()
+				os.Exit(1)
+			}
+			since = time.Now() // blocked, not spinning: not ours to judge
+		}
+	}()
+	return func() { close(quit) }
 }
